@@ -156,6 +156,26 @@ def build_view(rng, cls, content_len):
                 b[o:o + n] = b'|' * n
             return bytes(b)
         return c.partitions[0].dpfs_lv3_file, view, True, outside, [bio, c]
+    if cls == 'ivfc-file':
+        # the verified level-4 view of a save partition (IVFCLevel4Reader): keeps its own position, reads and writes whole hashed blocks
+        from .. import savecommon as sv
+        g = sv.gen_geom(rng, small=True)
+        img, info, payloads = sv.build(g)
+        c, bio = sv.open_container(img, g['kind'])
+        return sv.lv4_reader(c, 0), payloads[0], True, None, [bio, c]
+    if cls == 'exefs-entry':
+        # an entry of an ExeFS that does not start at offset 0 of its file (reader created on a positioned file object)
+        from pyctr.type.exefs import ExeFSReader
+        from ..builders import exefs as XB
+        files = [('a', pyenv.rbytes(rng, rng.choice([0, 5, 0x200, 0x201]))), ('view', content), ('z', pyenv.rbytes(rng, rng.choice([1, 0x1FF])))]
+        rng.shuffle(files)
+        img, xinfo = XB.build_exefs(files)
+        lead = pyenv.rbytes(rng, rng.choice([0, 1, 0x10, 0x200, 0x233]))
+        bio = io.BytesIO(lead + img + post)
+        bio.seek(len(lead))
+        r = ExeFSReader(bio, _load_icon=False)
+        o = len(lead) + 0x200 + xinfo['view']['offset']
+        return r.open('view'), content, True, (lambda: bio.getvalue()[:o] + b'|' + bio.getvalue()[o + len(content):]), [bio, r]
     raise ValueError(cls)
 
 
@@ -163,7 +183,7 @@ def case_oracle(ctx, case, mr=None):
     rng = __import__('random').Random(case['vseed'])
     v, content, writable, probe, keep = build_view(rng, case['cls'], case['sz'])
     ops = case['ops']
-    if case['cls'] in ('reader-file', 'dpfs-file'):
+    if case['cls'] in ('reader-file', 'dpfs-file', 'ivfc-file'):
         # the size of these views is known only once they are built: the history is drawn for the real size (same seed, so it replays)
         ops = fc.gen_ops(rng, len(content), len(case['ops']) + 2, writable=writable, whences=(0, 0, 1, 2, 2))
         case = dict(case, ops=ops)
@@ -194,8 +214,8 @@ def gen_cases(ctx, rng):
         blen = off + sz + extra if not short else rng.randrange(off, off + sz + 1)
         yield dict(cls='window', base=pyenv.rbytes(rng, blen).hex(), off=off, sz=sz,
                    ops=fc.gen_ops(rng, sz, rng.randrange(1, 16)))
-    for cls in ('nested-window', 'closewrapper', 'merger', 'ctr-on-window', 'twl-on-window', 'cbc-on-window', 'reader-file', 'dpfs-file'):
-        for i in range(ctx.n(300, 10000) if cls not in ('reader-file', 'dpfs-file') else ctx.n(60, 1500)):
+    for cls in ('nested-window', 'closewrapper', 'merger', 'ctr-on-window', 'twl-on-window', 'cbc-on-window', 'reader-file', 'dpfs-file', 'ivfc-file', 'exefs-entry'):
+        for i in range(ctx.n(300, 10000) if cls not in ('reader-file', 'dpfs-file', 'ivfc-file') else ctx.n(60, 1500)):
             sz = rng.choice([0, 1, 2, 3, 5, 16, 17, 40])
             if cls == 'cbc-on-window':
                 sz = rng.choice([0, 16, 32, 48, 80])
